@@ -2,7 +2,7 @@
 //@ props: C05 C08 C19
 //@ implicit: C08
 //@ source: src/debugger/mod.rs
-//@ fn: Debugger::set_frame_into_focus, ExplorationContext::new
+//@ fn: Debugger::set_frame_into_focus, Debugger::ecx_update_location, Debugger::ecx_restore_frame, Debugger::ecx_switch_thread, ExplorationContext::new
 //@ shim: src/debugger/mod.rs :: struct ExplorationContext :: focus_location: Location, focus_frame: u32
 //@ shim: src/debugger/debugee/mod.rs :: struct Location :: pc: RelocatedAddress, global_pc: GlobalAddress, pid: Pid
 //@ assume: `self.debugee.unwind(pid)` returns the backtrace `spec_backtrace(debugee, pid)` (gimli CFI unwinding: external; its register carriage is covered by the Kani units of C05); `frame.ip.into_global(&self.debugee)` is the external address conversion (C18)
@@ -28,6 +28,8 @@ pub struct Debugger { pub debugee: Debugee, pub expl_context: ExplorationContext
 
 pub uninterp spec fn spec_backtrace(d: &Debugee, pid: Pid) -> Seq<FrameSpan>;
 pub uninterp spec fn spec_global(d: &Debugee, a: RelocatedAddress) -> GlobalAddress;
+/// the real location (thread, program counter) of thread `pid` as the kernel reports it
+pub uninterp spec fn spec_real_location(d: &Debugee, pid: Pid) -> Location;
 
 impl Debugee {
     #[verifier::external_body] pub fn is_in_progress(&self) -> (r: bool) { unimplemented!() }
@@ -53,6 +55,33 @@ impl ExplorationContext {
 impl Debugger {
     #[verifier::external_body]
     pub fn ecx(&self) -> (r: &ExplorationContext) ensures *r == self.expl_context { unimplemented!() }
+
+    /// self.debugee.get_tracee_ensure(pid).location(&self.debugee)
+    #[verifier::external_body]
+    fn outline_real_location(&self, pid: Pid) -> (r: Result<Location, DbgError>)
+        ensures r is Ok ==> r->Ok_0 == spec_real_location(&self.debugee, pid),
+    { unimplemented!() }
+
+//@ extract: impl Debugger / fn ecx_update_location
+//@   sig: fn ecx_update_location(&mut self) -> (r: Result<(), DbgError>)
+//@   ensures E_upd: r is Ok ==> final(self).expl_context.focus_frame == 0 && final(self).expl_context.focus_location == spec_real_location(&old(self).debugee, old(self).expl_context.focus_location.pid)
+//@   ensures E_upd_err: r is Err ==> final(self).expl_context == old(self).expl_context
+//@   outline O_loc: `self.debugee .get_tracee_ensure(old_ecx.pid_on_focus()) .location(&self.debugee)?` => `self.outline_real_location(old_ecx.pid_on_focus())?`
+//@   rewrite W_ret: `Ok(&self.expl_context)` => `Ok(())`
+//@   rewrite W_old: `let old_ecx = self.ecx();` => `let old_ecx = ExplorationContext { focus_location: self.expl_context.focus_location, focus_frame: self.expl_context.focus_frame };`
+//@ end
+
+//@ extract: impl Debugger / fn ecx_restore_frame
+//@   sig: fn ecx_restore_frame(&mut self) -> (r: Result<(), DbgError>)
+//@   ensures E_restore: r is Ok ==> final(self).expl_context.focus_frame == 0 && final(self).expl_context.focus_location == spec_real_location(&old(self).debugee, old(self).expl_context.focus_location.pid)
+//@ end
+
+//@ extract: impl Debugger / fn ecx_switch_thread
+//@   sig: fn ecx_switch_thread(&mut self, pid: Pid) -> (r: Result<(), DbgError>)
+//@   ensures E_switch: r is Ok ==> final(self).expl_context.focus_frame == 0 && final(self).expl_context.focus_location == spec_real_location(&old(self).debugee, pid)
+//@   outline O_loc: `self.debugee .get_tracee_ensure(pid) .location(&self.debugee)?` => `self.outline_real_location(pid)?`
+//@   rewrite W_ret: `Ok(&self.expl_context)` => `Ok(())`
+//@ end
 
 //@ extract: impl Debugger / fn set_frame_into_focus
 //@   sig: pub fn set_frame_into_focus(&mut self, num: u32) -> (r: Result<u32, DbgError>)
